@@ -3369,8 +3369,10 @@ TraverseSchema::traverseByRestriction(const DOMElement* const rootElem,
                         // Code was just comparing the string of prefix:localname
                         // and if the schema and instance document had different
                         // prefixes with the same URI string then we were giving an error.
+                        // An unprefixed value is in the default namespace of
+                        // the schema document, if one is declared.
                         const XMLCh* prefix = getPrefix(attValue);
-                        const XMLCh* uriStr = (prefix && *prefix) ? resolvePrefixToURI(content, prefix) : fTargetNSURIString;
+                        const XMLCh* uriStr = resolvePrefixToURI(content, prefix);
 
                         enums.get()->addElement(XMLString::replicate(attValue, fGrammarPoolMemoryManager));
                         enums.get()->addElement(XMLString::replicate(uriStr, fGrammarPoolMemoryManager));
